@@ -26,7 +26,7 @@ ASSUMPTIONS = [
 def plan(tier):
     base = {"case_time_limit": 600,
             "required_classes": ["I:raw", "I:normalised", "I:real-state-complex-H", "T:thermal-prop", "T:exact", "P:exact-propagator", "X:evolve_exact",
-                                 "space:GS", "space:EX", "offset!=0", "family:pc", "family:ps", "family:vmf", "family:cmf", "modes:repeated-frequency",
+                                 "space:GS", "space:EX", "offset!=0", "family:pc", "family:ps", "family:vmf", "family:cmf", "modes:repeated-frequency", "T:exact-nonidentity-input",
                                  "tree", "tree-scheme:prop_and_compress_tdrk4", "tree-scheme:tdvp_ps2"],
             "required_counters": {"oracle": 600, "ratios_measured": 40, "tree_thermal_runs": 20}}
     if tier == "quick":
@@ -320,6 +320,14 @@ def case_thermal(ctx):
     # ---- exact=True: purely local vibrational Hamiltonian ------------------------------------------------
     ctx.cls("T:exact")
     init = ctx.lib(MpDm.max_entangled_ex if nexc else MpDm.max_entangled_gs, model, what="MpDm.max_entangled")
+    if rng.random() < 0.5:
+        # an input that does not commute with the propagator: the density-operator form of a random pure state
+        from renormalizer.mps import Mps
+        from rv import env as _env
+        _env.reseed_global(rng)
+        pure = ctx.lib(Mps.random, model, nexc, 4, 1.0, what="Mps.random", promised=False)
+        init = ctx.lib(MpDm.from_mps, pure, what="MpDm.from_mps")
+        ctx.cls("T:exact-nonidentity-input")
     job = ctx.lib(ThermalProp, init, exact=True, space=space, what="ThermalProp(exact)")
     N = int(rng.integers(1, 5))
     ctx.lib(job.evolve, evolve_dt=-1j * beta / 2 / N, nsteps=N, what="ThermalProp.evolve(exact)")
